@@ -179,71 +179,7 @@ def run(chk, repo, tier):
                    det or 'start = fmin - min, length = fmax - fmin + 1 on both axes', f.loc())
 
     # ---------------------------------------------------------------- C06-c
-    f, paths, oshape, fshape, foff = insert_paths(repo)
-    n = 0
-    not_add = insert_accumulates(chk, repo, 'C06-c', (f, paths))
-    for p in returns(paths):
-        ws = [e for e in p.writes() if e.data.get('how') == 'setitem' and root_sym(e.target) == 'out']
-        if len(ws) != 1:
-            if not_add:
-                continue
-            raise AnalysisError(f'field.insert: expected exactly one store into out per path, got {len(ws)}')
-        key = ws[0].data['key']
-        if key == nf.ELLIPSIS:
-            # the whole-array fast path is only legitimate for an equally shaped, un-shifted field
-            conds = [(c, pol) for c, pol, _ in p.conds if fmt(c) != 'intensity']
-            good = len(conds) == 1 and conds[0][1] is True and _fast_path_cond(conds[0][0], oshape, fshape, foff)
-            chk.ob('C06-c', 'D-guard', 'field.insert', 'whole-array fast path only for equal shape and zero offset', good,
-                   f'fast path taken when {fmt(conds[0][0]) if conds else "always"}; it must require field.shape == out.shape '
-                   f'and field.offset == (0, 0) on both axes', f.loc(ws[0].node))
-            continue
-        if not (isinstance(key, Tup) and len(key) == 2 and all(isinstance(s, Slice) for s in key.items)):
-            raise AnalysisError(f'field.insert: out slice not understood: {fmt(key)}')
-        val = ws[0].data.get('rhs')
-        fslices = None
-        for a in nf.value_atoms(val):
-            if a[0] == 'idx' and isinstance(a[2], Tup) and len(a[2]) == 2 and all(isinstance(s, Slice) for s in a[2].items) \
-                    and a[1] == nf.attr(S('field'), 'data').single_atom():
-                fslices = a[2]
-        if fslices is None:
-            raise AnalysisError('field.insert: field slice not found in the stored value')
-        for ax in (0, 1):
-            o, fs = key.items[ax], fslices.items[ax]
-            ul = HALF(oshape.items[ax]) - HALF(fshape.items[ax]) + foff.items[ax]
-            n += 1
-            chk.ob('C06-c', 'N-identity', 'field.insert', f'axis {ax} equal lengths [{conds_str(p)}]',
-                   identity_holds((o.hi - o.lo) - (fs.hi - fs.lo), nf.ZERO),
-                   f'out slice {fmt(o)} and field slice {fmt(fs)} differ in length by {fmt((o.hi - o.lo) - (fs.hi - fs.lo))}',
-                   f.loc(ws[0].node))
-            chk.ob('C06-c', 'N-identity', 'field.insert', f'axis {ax} alignment [{conds_str(p)}]',
-                   identity_holds(o.lo - fs.lo, ul),
-                   f'out.start - field.start = {fmt(o.lo - fs.lo)}; the upper-left corner is {fmt(ul)}',
-                   f.loc(ws[0].node))
-            # the written window lies inside the array: clipped to [0, out.shape[ax]] of the *same* axis
-            from ..rules import literals
-            lits = literals(p.conds)
-            n_ax, n_other = oshape.items[ax], oshape.items[1 - ax]
-            lo0 = C(0) if o.lo == NONE else o.lo
-
-            def le_known(x, y):
-                # x <= y established by a path condition (or x == y)
-                if x == y:
-                    return True
-                return any((c == nf.app('lt', y, x) and pol is False) or (c == nf.app('le', x, y) and pol is True) for c, pol in lits)
-            up = le_known(o.hi, n_ax)
-            low = le_known(C(0), lo0)
-            verdict, det_b = True, f'{fmt(o)} within [0, {fmt(n_ax)}]'
-            if not up:
-                wrong = n_other != n_ax and le_known(o.hi, n_other)
-                verdict = False if wrong else None
-                det_b = (f'upper bound {fmt(o.hi)[:80]} is limited by {fmt(n_other)} (the other axis), not by {fmt(n_ax)}' if wrong else
-                         f'undecided: no path condition bounds {fmt(o.hi)[:80]} by {fmt(n_ax)}')
-            elif not low:
-                verdict, det_b = None, f'undecided: no path condition shows {fmt(lo0)[:80]} >= 0'
-            chk.ob('C06-c', 'N-bounds', 'field.insert', f'axis {ax} window clipped to the array [{conds_str(p)}]', verdict, det_b,
-                   f.loc(ws[0].node))
-    if n < 2:
-        raise AnalysisError('field.insert: no clipping path analysed')
+    insert_rules(chk, repo)
 
     # ---------------------------------------------------------------- C06-d
     product_rules(chk, repo)
@@ -298,6 +234,78 @@ def _list_version_of(v, target):
             continue
         return False
     return False
+
+
+def insert_rules(chk, repo, clause='C06-c'):
+    """field.insert adds exactly the part of the field that falls inside the array: accumulate-only stores, window and
+    field slice of equal length, aligned at floor(n/2) + offset, clipped by the size of the same axis (C06-c; reused by
+    C02, C03, C04, C05, C07)."""
+    f, paths, oshape, fshape, foff = insert_paths(repo)
+    n = 0
+    not_add = insert_accumulates(chk, repo, clause, (f, paths))
+    for p in returns(paths):
+        ws = [e for e in p.writes() if e.data.get('how') == 'setitem' and root_sym(e.target) == 'out']
+        if len(ws) != 1:
+            if not_add:
+                continue
+            raise AnalysisError(f'field.insert: expected exactly one store into out per path, got {len(ws)}')
+        key = ws[0].data['key']
+        if key == nf.ELLIPSIS:
+            # the whole-array fast path is only legitimate for an equally shaped, un-shifted field
+            conds = [(c, pol) for c, pol, _ in p.conds if fmt(c) != 'intensity']
+            good = len(conds) == 1 and conds[0][1] is True and _fast_path_cond(conds[0][0], oshape, fshape, foff)
+            chk.ob(clause, 'D-guard', 'field.insert', 'whole-array fast path only for equal shape and zero offset', good,
+                   f'fast path taken when {fmt(conds[0][0]) if conds else "always"}; it must require field.shape == out.shape '
+                   f'and field.offset == (0, 0) on both axes', f.loc(ws[0].node))
+            continue
+        if not (isinstance(key, Tup) and len(key) == 2 and all(isinstance(s, Slice) for s in key.items)):
+            raise AnalysisError(f'field.insert: out slice not understood: {fmt(key)}')
+        val = ws[0].data.get('rhs')
+        fslices = None
+        for a in nf.value_atoms(val):
+            if a[0] == 'idx' and isinstance(a[2], Tup) and len(a[2]) == 2 and all(isinstance(s, Slice) for s in a[2].items) \
+                    and a[1] == nf.attr(S('field'), 'data').single_atom():
+                fslices = a[2]
+        if fslices is None:
+            raise AnalysisError('field.insert: field slice not found in the stored value')
+        for ax in (0, 1):
+            o, fs = key.items[ax], fslices.items[ax]
+            ul = HALF(oshape.items[ax]) - HALF(fshape.items[ax]) + foff.items[ax]
+            n += 1
+            chk.ob(clause, 'N-identity', 'field.insert', f'axis {ax} equal lengths [{conds_str(p)}]',
+                   identity_holds((o.hi - o.lo) - (fs.hi - fs.lo), nf.ZERO),
+                   f'out slice {fmt(o)} and field slice {fmt(fs)} differ in length by {fmt((o.hi - o.lo) - (fs.hi - fs.lo))}',
+                   f.loc(ws[0].node))
+            chk.ob(clause, 'N-identity', 'field.insert', f'axis {ax} alignment [{conds_str(p)}]',
+                   identity_holds(o.lo - fs.lo, ul),
+                   f'out.start - field.start = {fmt(o.lo - fs.lo)}; the upper-left corner is {fmt(ul)}',
+                   f.loc(ws[0].node))
+            # the written window lies inside the array: clipped to [0, out.shape[ax]] of the *same* axis
+            from ..rules import literals
+            lits = literals(p.conds)
+            n_ax, n_other = oshape.items[ax], oshape.items[1 - ax]
+            lo0 = C(0) if o.lo == NONE else o.lo
+
+            def le_known(x, y):
+                # x <= y established by a path condition (or x == y)
+                if x == y:
+                    return True
+                return any((c == nf.app('lt', y, x) and pol is False) or (c == nf.app('le', x, y) and pol is True) for c, pol in lits)
+            up = le_known(o.hi, n_ax)
+            low = le_known(C(0), lo0)
+            verdict, det_b = True, f'{fmt(o)} within [0, {fmt(n_ax)}]'
+            if not up:
+                wrong = n_other != n_ax and le_known(o.hi, n_other)
+                verdict = False if wrong else None
+                det_b = (f'upper bound {fmt(o.hi)[:80]} is limited by {fmt(n_other)} (the other axis), not by {fmt(n_ax)}' if wrong else
+                         f'undecided: no path condition bounds {fmt(o.hi)[:80]} by {fmt(n_ax)}')
+            elif not low:
+                verdict, det_b = None, f'undecided: no path condition shows {fmt(lo0)[:80]} >= 0'
+            chk.ob(clause, 'N-bounds', 'field.insert', f'axis {ax} window clipped to the array [{conds_str(p)}]', verdict, det_b,
+                   f.loc(ws[0].node))
+    if n < 2:
+        raise AnalysisError('field.insert: no clipping path analysed')
+
 
 
 def product_rules(chk, repo, clause='C06-d'):
